@@ -8,6 +8,9 @@ pub mod c04;
 pub mod spans;
 pub mod c05;
 pub mod c06;
+pub mod c08;
+pub mod c12;
+pub mod c16;
 
 pub fn dispatch_check(id: &str, tier: Tier, seed: u64) -> i32 {
     match id {
@@ -17,6 +20,9 @@ pub fn dispatch_check(id: &str, tier: Tier, seed: u64) -> i32 {
         "C04" => run_check(&c04::C04, tier, seed),
         "C05" => run_check(&c05::C05, tier, seed),
         "C06" => run_check(&c06::C06, tier, seed),
+        "C08" => run_check(&c08::C08, tier, seed),
+        "C12" => run_check(&c12::C12, tier, seed),
+        "C16" => run_check(&c16::C16, tier, seed),
         _ => {
             eprintln!("harness error: unknown property {id}");
             2
@@ -32,6 +38,9 @@ pub fn dispatch_replay(id: &str, file: &str) -> i32 {
         "C04" => run_replay(&c04::C04, file),
         "C05" => run_replay(&c05::C05, file),
         "C06" => run_replay(&c06::C06, file),
+        "C08" => run_replay(&c08::C08, file),
+        "C12" => run_replay(&c12::C12, file),
+        "C16" => run_replay(&c16::C16, file),
         _ => {
             eprintln!("harness error: unknown property {id}");
             2
